@@ -204,7 +204,8 @@ def declared_height(p):
 
 def search(ctx, broken):
     pay = ['~-~~', '~~-~', '"1;1;3;7~~~~-~-~', '"1;1;9;2~-~-~', '-~', '!3~-!5~-~'] + LIMIT_PAYLOADS + \
-          ['!%d~' % MAXD, '!%d~~' % MAXD, '!%d~-~' % MAXD, '"1;1;%d;%d~' % (MAXD, MAXD), '"1;1;%d;%d!%d~' % (MAXD, MAXD, MAXD), '"1;1;%d;%d~' % (MAXD + 1, MAXD), '"1;1;%d;%d~' % (MAXD, MAXD + 1)]
+          ['!%d~' % MAXD, '!%d~~' % MAXD, '!%d~-~' % MAXD, '"1;1;%d;3~' % MAXD, '"1;1;%d;3!%d~' % (MAXD, MAXD), '"1;1;%d;%d~' % (MAXD + 1, MAXD), '"1;1;%d;%d~' % (MAXD, MAXD + 1)]
+    # (the full 4096 x 4096 image is 64 MiB: the harness of this check prints every byte; stage S of C03 measures it)
     for b in broken:
         d = b.get('detail') or {}
         c = str(d.get('case', '')) if isinstance(d, dict) else ''
